@@ -241,6 +241,26 @@ def examine(case):
     n_alias_defs = len(re.findall(r"(?:al\d+|my col|sq\d+|sq_q\d+)[\"`]?(?=[ ,)]|$)", text))
     if b.as_keyword and "WITH " not in text:
         pass  # every alias definition must carry AS: checked through the model correspondence and the erasure below
+    alias_names = re.compile(r"al\d+|sq_q\d+")
+    if b.as_keyword:
+        # every alias DEFINITION carries AS: an alias that directly follows the end of an expression / a closing parenthesis
+        for i, t in enumerate(toks):
+            if t.kind == "id" and alias_names.fullmatch(t.val) and i > 0:
+                p_ = toks[i - 1]
+                if (p_.kind == "p" and p_.val == ")") or p_.kind in ("id", "num", "str"):
+                    if not (i + 1 < len(toks) and toks[i + 1].kind == "p" and toks[i + 1].val == "."):
+                        F("as-keyword-missing", "alias %s is defined without AS although %s asks for it" % (t.val, outer), outer=outer)
+                        break
+    # one column alias, one spelling: its definition and every reference to it are quoted alike within the statement
+    spell = {}
+    for i, t in enumerate(toks):
+        # (a qualified name — `sq.al0`, a column of a sub-query that happens to be called like the alias — is an identifier)
+        if t.kind == "id" and re.fullmatch(r"al\d+", t.val) and not (i > 0 and toks[i - 1].kind == "p" and toks[i - 1].val == "."):
+            spell.setdefault(t.val, set()).add(t.quote)
+    mixed = sorted(n_ for n_, qs in spell.items() if len(qs) > 1)
+    if mixed:
+        F("alias-spelling-mixed", "alias %s appears with different quoting %s in one statement"
+          % (mixed[0], sorted(map(str, spell[mixed[0]]))), outer=outer)
     if not b.as_keyword and n_as and "WITH " not in text and "CAST(" not in text:
         F("as-keyword", "AS keyword used although %s does not ask for it" % outer, outer=outer)
     # --- dialect forms at every depth
